@@ -3,9 +3,11 @@
 // (lean/Sge/Gen/*.lean). Hand-written theorems in lean/SgeProofs/Properties/C??Facts.lean are re-checked
 // against these tables on every run, so a source change that breaks a fact breaks a theorem.
 //
-//	extract -repo /repo -out <dir>      writes Bank.lean Handlers.lean NonDet.lean Consts.lean KeeperState.lean into <dir>
+//	extract -repo /repo -out <dir>      writes Bank.lean Handlers.lean NonDet.lean Consts.lean KeeperState.lean
+//	                                    Kernels.lean KernelsTieList.lean into <dir>
 //
-// One file per fact family: bank.go, handlers.go (+ effects.go), nondet.go, consts.go, keeperstate.go; world.go holds the
+// One file per fact family: bank.go, handlers.go (+ effects.go), nondet.go, consts.go, keeperstate.go; kernels.go translates
+// the arithmetic kernels into Lean definitions (KERNELS.md); world.go holds the
 // loaded program and the shared resolution helpers; lean.go the Lean printer. Output is sorted and
 // deterministic; every fact carries its source position ("x/bet/keeper/wager.go:12").
 package main
@@ -34,12 +36,15 @@ func main() {
 		fmt.Fprintln(os.Stderr, "extract:", err)
 		os.Exit(1)
 	}
+	kernels, tieList := genKernels(w)
 	files := map[string]string{
-		"Bank.lean":        genBank(w),
-		"Handlers.lean":    genHandlers(w),
-		"NonDet.lean":      genNonDet(w),
-		"Consts.lean":      genConsts(w),
-		"KeeperState.lean": genKeeperState(w),
+		"Kernels.lean":        kernels,
+		"KernelsTieList.lean": tieList,
+		"Bank.lean":           genBank(w),
+		"Handlers.lean":       genHandlers(w),
+		"NonDet.lean":         genNonDet(w),
+		"Consts.lean":         genConsts(w),
+		"KeeperState.lean":    genKeeperState(w),
 	}
 	for name, text := range files {
 		if err := os.WriteFile(filepath.Join(*out, name), []byte(text), 0o644); err != nil {
